@@ -249,8 +249,9 @@ func init() {
 			{Name: "fault-free", World: "tunnel", Weight: 6},
 			{Name: "fault-free-l2", World: "tunnel", Weight: 2, Park: 0.002, Gos: 0.01},
 			{Name: "faults", World: "tunnel", Faults: true, Weight: 2},
+			{Name: "bwlimit", World: "bwlimit", Weight: 1},
 		},
-		Rule: "one run = one seeded world (frps + 1-2 frpc + backends + users) with drawn option lattice point, payloads, chunking, close modes and network schedule; distinct = distinct canonical event-log hash; non-trivial = at least one proxy came up and every connection ran to its oracle verdict",
+		Rule: "one run = one seeded world (frps + 1-2 frpc + backends + users) with drawn option lattice point, payloads, chunking, close modes and network schedule (batch bwlimit: one tcp proxy limited to 2-32 KB/s on either side moving 100-600 KB per direction in write blocks of 1-256 KB, every interval of deliveries compared with limit x dt + one burst + 80 KB); distinct = distinct canonical event-log hash; non-trivial = at least one proxy came up and every connection ran to its oracle verdict",
 	})
 }
 
@@ -454,6 +455,20 @@ func checkProperty(id, tier string, seed uint64, budget time.Duration, maxRuns i
 	p, ok := props[id]
 	if !ok {
 		die2("property %s has no check", id)
+	}
+	if only := os.Getenv("VERIF_ONLY_BATCH"); only != "" { // development aid: restrict to one batch (evidence then covers only it)
+		var keep []batchSpec
+		for _, b := range p.Batches {
+			if b.Name == only {
+				keep = append(keep, b)
+			}
+		}
+		if len(keep) == 0 {
+			die2("no batch %q in %s", only, id)
+		}
+		cp := *p
+		cp.Batches = keep
+		p = &cp
 	}
 	needRace := false
 	for _, b := range p.Batches {
@@ -711,9 +726,11 @@ func minimise(bld *build, runDir string, p *propSpec, f found) RunInput {
 	for k, v := range f.res.Knobs {
 		in.Knobs[k] = v
 	}
+	var lastKnobs map[string]int
 	try := func(c RunInput) bool {
 		r := execRun(bld, c, runDir, p.RunWall)
 		postProcess(c, r)
+		lastKnobs = r.Knobs
 		return hasViolation(r, f.v)
 	}
 	budget := 40
@@ -793,7 +810,8 @@ func minimise(bld *build, runDir string, p *propSpec, f found) RunInput {
 				c.Knobs[kk] = vv
 			}
 			c.Knobs[k] = simple
-			if try(c) {
+			// an override outside the knob's domain is ignored by the world: only keep it if it took effect
+			if try(c) && lastKnobs[k] == simple {
 				in = c
 				break
 			}
